@@ -122,3 +122,34 @@ Proof.
     rewrite Z2Pos.id by lia. rewrite <- INR_IZR_INZ. field. apply not_0_INR. lia.
   - intros j Hj. apply in_seq in Hj. apply zbinom2_ne0. lia.
 Qed.
+
+(** ** mutation rate changing from epoch to epoch (ej_aux_th): with the same theta in every epoch it is theta times the
+    constant-theta oracle, for every history (any number of constant / exponential epochs) and any quadrature slot *)
+Lemma ej_aux_th_uniform (quad : (R -> R) -> R -> R -> R) (th nuA : R) :
+  forall (eps : list (R * @epoch R)) (c L : R), (forall e, In e eps -> fst e = th) ->
+  ej_aux_th quad c L eps nuA th = th * ej_aux quad c L (map snd eps) nuA.
+Proof.
+  induction eps as [|[th' e] t IH]; intros c L Hth.
+  - cbn. numR. unfold Rdiv. ring.
+  - assert (Hh : th' = th) by (apply (Hth (th', e)); left; reflexivity). subst th'.
+    assert (Ht : forall e0, In e0 t -> fst e0 = th) by (intros; apply Hth; right; assumption).
+    destruct e as [nu T | nu0 nu1 T]; cbn [ej_aux_th ej_aux map snd]; rewrite (IH _ _ Ht); numR; unfold Rdiv; ring.
+Qed.
+
+Lemma nsum_scale (a : R) (f : nat -> R) : forall l : list nat,
+  nsum (map (fun j => a * f j) l) = a * nsum (map f l).
+Proof.
+  induction l as [|j l IH]; unfold nsum in *; cbn [map fold_right]; numR.
+  - ring.
+  - rewrite IH. ring.
+Qed.
+
+Lemma coal_sfs_th_uniform_lemma : forall (quad : (R -> R) -> R -> R -> R) (th nuA : R) (eps : list (R * @epoch R)) (n i : nat),
+  (forall e, In e eps -> fst e = th) ->
+  coal_sfs 1 (ej_hist_th quad eps nuA th) n i = coal_sfs th (ej_hist quad (map snd eps) nuA) n i.
+Proof.
+  intros quad th nuA eps n i Hth. unfold coal_sfs, ej_hist_th, ej_hist.
+  rewrite (map_ext _ (fun j => th * (nofQ (wnij n i j) * ej_aux quad (nofZ (zbinom j 2)) n0 (map snd eps) nuA))).
+  - rewrite nsum_scale. numR. unfold Rdiv. ring.
+  - intros j. rewrite ej_aux_th_uniform by exact Hth. numR. ring.
+Qed.
